@@ -65,7 +65,7 @@ CONFIG = {
 REQUIRED = ['objects_sample', 'objects_smc', 'objects_bolfi', 'weighted_objects', 'columns_checked', 'means_checked',
             'intervals_checked', 'contract_weighted_sample_quantile', 'bolfi_warmup_checked', 'bolfi_warmup_positive',
             'pickle_roundtrips', 'json_roundtrips', 'csv_roundtrips', 'json_population_roundtrips',
-            'ess_formula_checked', 'rhat_formula_checked', 'ess_affine_checked', 'ess_permutation_checked',
+            'diag_affine_extreme_scale', 'ess_formula_checked', 'rhat_formula_checked', 'ess_affine_checked', 'ess_permutation_checked',
             'rhat_affine_checked', 'rhat_permutation_checked', 'rhat_odd_length', 'ess_truncated_before_end']
 
 NAME_POOL = ['a', 'b', 'c', 'mu', 'sigma', 't1', 't2', 't10', 'theta', 'z', 'B', 'Zeta', '_p', 'alpha', 'k0', 'k1', 'beta_2']
@@ -442,7 +442,11 @@ def check_diagnostics(ctx, ch, rg, what):
                 return
     scale = float(np.std(ch)) or 1.0
     a = float(rg.uniform(0.1, 10.0) * rg.choice([-1.0, 1.0]))
-    b = float(rg.uniform(-5.0, 5.0) * scale)
+    if rg.random() < 0.3:
+        # a change of units by many orders of magnitude (rates per microsecond, distances in nanometres ...)
+        a = float(10.0 ** rg.uniform(-7.0, 7.0) * rg.choice([-1.0, 1.0]))
+        ctx.event('diag_affine_extreme_scale')
+    b = float(rg.uniform(-5.0, 5.0) * scale * abs(a))          # offset of the order of the rescaled spread (no cancellation)
     perm = rg.permutation(M)
     if M > 1 and np.array_equal(perm, np.arange(M)):
         perm = np.roll(perm, 1)
